@@ -10,3 +10,80 @@ package transaction
 //@   requires R != nil && S != nil && Vb != nil && Vb.val >= 0
 //@   ensures recid: result1 == nil ==> old(Vb.val) == 27 || old(Vb.val) == 28
 //@   ensures rs: result1 == nil ==> 1 <= old(R.val) && old(R.val) < N && 1 <= old(S.val) && old(S.val) <= div(N, 2)
+//@   modifies nothing
+
+//@ # ---------------------------------------------------------------- transaction execution gate (C03, C04, C26, C05)
+//@ ghost decodedTx(e *Executor, raw []byte) *Transaction
+//@ ghost senderOf(tx *Transaction) types.Address
+
+//@ # ASSUMED: decoding is a function of the bytes and touches no state; the sender is a function of the transaction
+//@ func (*Executor).DecodeFromBytes
+//@   trusted
+//@   ensures result1 == nil ==> result0 != nil && result0 == decodedTx(e, tx) && result0.decodedData != nil
+//@   modifies nothing
+//@ func (*Transaction).Sender
+//@   trusted
+//@   ensures result1 == nil ==> result0 == senderOf(tx)
+//@   modifies nothing
+//@ func (*Transaction).Hash
+//@   trusted
+//@   modifies nothing
+
+//@ # ASSUMED for now (proved separately where listed under C27/C15): pure computations over the read-only state
+//@ func CheckSwap
+//@   trusted
+//@   modifies nothing
+//@ func CalculateCommission
+//@   trusted
+//@   ensures errResp == nil ==> commission != nil && commission.val >= 0
+//@   modifies nothing
+//@ func CalculateSaleReturnAndCheck
+//@   trusted
+//@   modifies nothing
+
+//@ # ASSUMED: the per-type table accessors are pure
+//@ func iface Data.Gas
+//@   modifies nothing
+//@ func iface Data.TxType
+//@   modifies nothing
+//@ func iface Data.CommissionData
+//@   ensures result != nil && result.val >= 0
+//@   modifies nothing
+//@ func iface dataCommission.commissionCoin
+//@   modifies nothing
+//@ func iface symbolCreator.PayForSymbol
+//@   ensures result != nil && result.val >= 0
+//@   modifies nothing
+
+//@ # abstract tokens for the modules whose contents RunTx itself never touches
+//@ ghost otherState() int
+
+//@ # interface contract of every transaction type's Run (C03): a rejected transaction changes nothing; an accepted one
+//@ # delivered to the real state sets the sender's nonce to the transaction's nonce. Implementations under
+//@ # verification are checked against it; the others are assumed to satisfy it (listed in the evidence).
+//@ func iface Data.Run
+//@   let accs = typeis(arg1, "*state.CheckState") ? as(arg1, "*state.CheckState").state.Accounts : as(arg1, "*state.State").Accounts
+//@   requires arg0 != nil && arg2 != nil && arg4 != nil
+//@   ensures rejected: result.Code != 0 ==> bal == old(bal) && nonce == old(nonce) && ledgerDelta == old(ledgerDelta) && ledgerVolume == old(ledgerVolume) && coinVolume == old(coinVolume) && coinReserve == old(coinReserve) && swapAbs == old(swapAbs) && otherState == old(otherState) && arg2.val == old(arg2.val)
+//@   ensures checkonly: typeis(arg1, "*state.CheckState") ==> bal == old(bal) && nonce == old(nonce) && ledgerDelta == old(ledgerDelta) && ledgerVolume == old(ledgerVolume) && coinVolume == old(coinVolume) && coinReserve == old(coinReserve) && swapAbs == old(swapAbs) && otherState == old(otherState) && arg2.val == old(arg2.val)
+//@   ensures accepted: result.Code == 0 && typeis(arg1, "*state.State") ==> nonce(accs, senderOf(arg0)) == arg0.Nonce
+//@   ensures othernonces: forall a types.Address :: a != senderOf(arg0) ==> nonce(accs, a) == old(nonce(accs, a))
+//@   modifies bal, nonce, ledgerDelta, ledgerVolume, coinVolume, coinReserve, swapAbs, otherState, arg2.val, accountsCache, coinsCache, commissionCache
+
+//@ func (*ExecutorV3).RunTx
+//@   serves C04 C03 C26
+//@   let tx = decodedTx(e.Executor, rawTx)
+//@   let snd = senderOf(tx)
+//@   let deliver = typeis(context, "*state.State")
+//@   let accs = typeis(context, "*state.CheckState") ? as(context, "*state.CheckState").state.Accounts : as(context, "*state.State").Accounts
+//@   requires e != nil && rewardPool != nil && currentMempool != nil
+//@   requires typeis(context, "*state.CheckState") || typeis(context, "*state.State")
+//@   requires typeis(context, "*state.CheckState") ==> as(context, "*state.CheckState") != nil && as(context, "*state.CheckState").state != nil && as(context, "*state.CheckState").state.Accounts != nil && as(context, "*state.CheckState").state.Coins != nil && as(context, "*state.CheckState").state.Commission != nil && as(context, "*state.CheckState").state.Accounts.bus != nil
+//@   requires typeis(context, "*state.State") ==> as(context, "*state.State") != nil && as(context, "*state.State").Accounts != nil && as(context, "*state.State").Coins != nil && as(context, "*state.State").Commission != nil && as(context, "*state.State").Accounts.bus != nil && as(context, "*state.State").Coins.bus != nil
+//@   ensures chain: result.Code == 0 ==> tx.ChainID == types.CurrentChainID
+//@   ensures inorder: result.Code == 0 ==> tx.Nonce == old(nonce(accs, snd)) + 1
+//@   ensures advanced: result.Code == 0 && deliver ==> nonce(accs, snd) == tx.Nonce
+//@   ensures checkmode: !deliver ==> bal == old(bal) && nonce == old(nonce) && coinVolume == old(coinVolume) && coinReserve == old(coinReserve) && swapAbs == old(swapAbs) && otherState == old(otherState) && rewardPool.val == old(rewardPool.val)
+//@   ensures failednonce: result.Code != 0 ==> nonce == old(nonce) && otherState == old(otherState)
+//@   ensures failedbalances: result.Code != 0 ==> forall a types.Address, c types.CoinID :: c != tx.GasCoin ==> bal(accs, a, c) == old(bal(accs, a, c))
+//@   ensures chargedonce: deliver && bal != old(bal) ==> nonce(accs, snd) == tx.Nonce
